@@ -72,6 +72,17 @@ CLAIMED = {
         'technique': 'contract-based deductive verification (Verus) of extracted real code',
         'design_ref': 'DESIGN.md 5/C17',
     },
+    'C22': {
+        'text': "Kani (CBMC) harnesses on the real crate, sequential, complete (loop-free or fully unwound, full-domain scalars): from an ARBITRARY prior value of the two cross-query globals (stop flag, id counter) "
+                "start_query() and make_query() re-establish the initial state (flag clear, ids restart), and next_id/set_var_id/clear_id/stop_query satisfy their counter/flag contracts. "
+                "This turns the history property into a per-constructor contract, as the statement's proviso allows. make_query is verified modularly with Unifiable::recreate_variables stubbed; "
+                "the stub's frame assumption (renaming never writes the stop flag) is re-checked by a source scan on every run.",
+        'note': 'Assumed, not checked: the engine reads no other cross-query state and reads these two only through count_rules / next_id; start_query_timer (thread) is read, not proved. Trusted: Kani 0.68 / CBMC 6.11, stubs for fmt::format and RandomState::new.',
+        'technique': 'Kani harnesses (complete BMC) with function stubbing on the real crate',
+        'category': 'model_checking',
+        'engine': 'kani-harnesses',
+        'design_ref': 'DESIGN.md 5/C22',
+    },
     'C15': {
         'text': 'Deductive proof (Verus) on the verbatim bodies of make_linked_list and link_front: for every term vector satisfying the call-site precondition the result is a well-formed list '
                 '(empty-node terminated, per-node count = nodes to the end, only the last node a tail variable) whose element sequence, tail and length are exactly those of the statement '
